@@ -42,6 +42,7 @@ run_case() {  # name  file  sed-expression  expectation(ok|coqfail|transfail)
   fi
   local got
   if RS2COQ_SRC="$d/src" RS2COQ_OUT="$d/Src.v" "$HERE/run.sh" > "$d/run.log" 2>&1; then
+    echo "    $(grep -m1 '^rs2coq: omitted:' "$d/run.log")"
     if compile "$d"; then got=ok; else got=coqfail; fi
   else
     echo "    translator refused: $(grep -m1 'ERROR' "$d/run.log" | cut -c1-200)"
@@ -57,6 +58,6 @@ run_case mut3      lemire.rs     's/152_170 + 65536/152_171 + 65536/'           
 run_case mut4      mask.rs       's/match n == 64 {/match n == 63 {/'                        coqfail
 run_case mut5      bellerophon.rs 's/(lz + 1).min(24)/(lz + 1).min(25)/'                     coqfail
 run_case mut6      slow.rs       's/while mantissa >= 100 {/while mantissa > 100 {/'         coqfail
-run_case mut7      mask.rs       's/debug_assert!(n < 64,/assert!(n < 64,/'                  transfail
+run_case mut7      mask.rs       's/debug_assert!(n < 64,/assert!(n < 64,/'                  coqfail
 if [ $fails -eq 0 ]; then echo "selftest: PASS"; else echo "selftest: $fails FAILURE(S)"; fi
 exit $fails
